@@ -25,7 +25,7 @@ try:
         out["demo_changed"] = rc
         out["demo_tail"] = tail.strip().splitlines()[-1:] 
         if run_tests:
-            t = subprocess.run(["/venv/bin/python", "-m", "pytest", "-q", "-p", "no:cacheprovider", "--timeout=900", "--continue-on-collection-errors"], cwd=wt, capture_output=True, text=True)
+            t = subprocess.run(["env", "OMP_NUM_THREADS=2", "MKL_NUM_THREADS=2", "/venv/bin/python", "-m", "pytest", "-q", "-p", "no:cacheprovider", "--timeout=900", "--continue-on-collection-errors"], cwd=wt, capture_output=True, text=True)
             m = re.search(r"(\d+) passed", t.stdout)
             out["tests_passed"] = int(m.group(1)) if m else None
             out["tests_failed"] = "failed" in t.stdout.splitlines()[-1] if t.stdout.splitlines() else None
